@@ -231,9 +231,9 @@ def gen_tree(d, i, r, mode):
         if r.random() < 0.5:
             ec['rate_limits'] = ['rl']
         if r.random() < 0.5:
-            ec['renew_delay'] = '%dh' % next(vals)
+            ec['renew_delay'] = '%dh' % next(vals) if r.random() < 0.8 else r.choice(['0s', '0d', '0m0s'])
         if r.random() < 0.5:
-            ec['random_early_renew'] = '%dm' % next(vals)
+            ec['random_early_renew'] = '%dm' % next(vals) if r.random() < 0.7 else r.choice(['0s', '0d', '0m0s'])
         if r.random() < 0.5:
             ec['file_name_format'] = 'ep-%d-{{ name }}.{{ file_type }}.{{ ext }}' % next(vals)
         if r.random() < 0.3:
@@ -253,9 +253,9 @@ def gen_tree(d, i, r, mode):
         if r.random() < 0.5:
             cc['name'] = 'crt%d' % k
         if r.random() < 0.5:
-            cc['renew_delay'] = '%dd' % next(vals)
+            cc['renew_delay'] = '%dd' % next(vals) if r.random() < 0.8 else r.choice(['0s', '0w'])
         if r.random() < 0.5:
-            cc['random_early_renew'] = '%ds' % next(vals)
+            cc['random_early_renew'] = '%ds' % next(vals) if r.random() < 0.7 else r.choice(['0s', '0h', '0m0s'])
         if r.random() < 0.5:
             cc['file_name_format'] = 'crt-%d-{{ name }}.{{ file_type }}.{{ ext }}' % next(vals)
         if r.random() < 0.3:
